@@ -209,3 +209,67 @@ theorem mergeOverlap_id (ms : List MObj) (h : PairwiseDisjoint ms) : mergeOverla
   rw [hheap im him]
 
 end XlModel.Grid
+
+namespace XlModel.Grid
+open XlModel
+
+/-! ### the normal form `normSpec` is pairwise disjoint -/
+
+theorem meetsB_comm (a b : Rect) : meetsB a b = meetsB b a := by
+  unfold meetsB
+  by_cases h : a.c1 ≤ b.c2 ∧ b.c1 ≤ a.c2 ∧ a.r1 ≤ b.r2 ∧ b.r1 ≤ a.r2
+  · have : b.c1 ≤ a.c2 ∧ a.c1 ≤ b.c2 ∧ b.r1 ≤ a.r2 ∧ a.r1 ≤ b.r2 := by omega
+    simp [h, this]
+  · have : ¬ (b.c1 ≤ a.c2 ∧ a.c1 ≤ b.c2 ∧ b.r1 ≤ a.r2 ∧ a.r1 ≤ b.r2) := by omega
+    simp [h, this]
+
+/-- rectangles that fail the interval test share no cell -/
+theorem noCommon_of_not_meets (a b : Rect) (h : meetsB a b = false) : NoCommon a b := by
+  intro x y ⟨h1, h2⟩
+  rw [contains_iff] at h1 h2
+  unfold meetsB at h
+  have : a.c1 ≤ b.c2 ∧ b.c1 ≤ a.c2 ∧ a.r1 ≤ b.r2 ∧ b.r1 ≤ a.r2 := by omega
+  simp [this] at h
+
+theorem normStep_pairwise (live : List Rect) (q : Rect) (l : List Rect)
+    (hp : live.Pairwise (fun a b => meetsB a b = false)) (h : normStep live q = some l) :
+    l.Pairwise (fun a b => meetsB a b = false) := by
+  unfold normStep at h
+  simp only at h
+  split at h
+  · cases h
+  · rename_i hany
+    simp only [Option.some.injEq] at h
+    subst h
+    apply List.pairwise_append.mpr
+    refine ⟨hp.filter _, by simp, ?_⟩
+    intro a ha b hb
+    simp only [List.mem_singleton] at hb
+    subst hb
+    have := List.any_eq_false.mp (by simpa using hany) a ha
+    rw [meetsB_comm]
+    simpa using this
+
+theorem normSpec_aux (rs : List Rect) : ∀ (acc : Option (List Rect)) (l : List Rect),
+    (∀ live, acc = some live → live.Pairwise (fun a b => meetsB a b = false)) →
+    rs.foldl (fun acc q => match acc with
+      | some live => normStep live q
+      | none => none) acc = some l → l.Pairwise (fun a b => meetsB a b = false) := by
+  induction rs with
+  | nil => intro acc l hacc h; exact hacc l h
+  | cons q rs ih =>
+    intro acc l hacc h
+    simp only [List.foldl_cons] at h
+    apply ih _ l _ h
+    intro live hlive
+    cases acc with
+    | none => simp at hlive
+    | some live0 => exact normStep_pairwise live0 q live (hacc live0 rfl) hlive
+
+/-- the normal form computed by `normSpec` is pairwise disjoint -/
+theorem normSpec_pairwise (rs l : List Rect) (h : normSpec rs = some l) :
+    l.Pairwise (fun a b => NoCommon a b) := by
+  have := normSpec_aux rs (some []) l (by intro live hl; cases hl; simp) h
+  exact this.imp (fun {a b} hab => noCommon_of_not_meets a b hab)
+
+end XlModel.Grid
